@@ -124,7 +124,10 @@ Ranges == {RangeHdr(kd, "var", f[1], f[2]) : kd \in {"slice", "array", "string"}
 Mut(op, j) == [k |-> "mut", op |-> op, j |-> j]
 VarK == [k |-> "var", n |-> "k"]
 VarV == [k |-> "var", n |-> "v"]
-ARange == [simple |-> {Y(VarK), Y(VarV), Mut("sset", 2), Mut("sapp", 0), Mut("strunc", 0), Mut("aset", 2)},
+\* range loops with an empty body count as simple statements (size 1): sequences of loops at the smallest bound
+\* (two loops over non-addressable arrays in one block need two distinct generated temporaries)
+EmptyRanges == {RangeHdr("array", "call", "def", "def"), RangeHdr("slice", "call", "def", "def"), RangeHdr("array", "var", "def", "none")}
+ARange == [simple |-> {Y(VarK), Y(VarV), Mut("sset", 2), Mut("sapp", 0), Mut("strunc", 0), Mut("aset", 2)} \cup EmptyRanges,
            inits |-> {None}, posts |-> {None}, conds |-> {T0}, ifinits |-> {None},
            kinds |-> {"range", "if"}, jumps |-> {"break", "continue"}, ranges |-> Ranges]
 \* scoping of range loops (C03): `=` forms must assign the function-level variables (observed after the
